@@ -6,8 +6,6 @@ import json, os, subprocess, sys, collections
 ENV = dict(os.environ, GOFLAGS="-mod=mod", GOPROXY="off", GOSUMDB="off", GOTOOLCHAIN="local")
 FINDINGS = [
  # prop, features, coarse signature, name, description
- ("C01", "id-with-fragments", "C01/data-missing-key", "id-with-fragments",
-  "a client-selected id next to a fragment on the same level is registered for scrubbing (the fragment gets a helper id of its own) and disappears from the response"),
  ("C01", "id-directive,directives", "C01/errors-nonempty", "id-directive",
   "a client-selected `id @skip(if: true)` counts as present, no helper id is added, stitching fails with 'could not find the id'"),
  ("C01", "node-root", "C01/data-missing-key", "node-root",
@@ -26,10 +24,6 @@ FINDINGS = [
   "selections below an entity-typed field of an interface are not split by owner: the service receives fields it does not declare"),
  ("C02", "interfaces,abstract-frags", "C02/invalid-subrequest:input", "abstract-frags",
   "interface spread over services with a type-conditioned fragment: the planner emits `... on T { node(id: $id) { ... on T } }` (empty selection, invalid text)"),
- ("C19", "shared-file-variable", "C19/file-not-forwarded", "shared-file-variable",
-  "one variables object with files used by root fields of two services: the first extraction nulls the shared object, the second service gets no file"),
- ("C19", "file-two-paths-across-variables,file-two-paths", "C19/file-bytes-changed", "file-two-paths-across-variables",
-  "a file mapped into two variables that travel in two sub-requests is read once: the second request carries 0 bytes"),
 ]
 def sample(prop, feats, n=int(os.environ.get('MKF_N','400')), start=1):
     out = f"/verif/.build/mkf-{prop}.jsonl"
